@@ -12,7 +12,7 @@
    [link_dest out t] is the place a link with text [t] located in [out] leads to. *)
 From Coq Require Import List NArith Bool.
 From Conductor Require Import Lib.Str Lib.Cmp Lib.Path Gen.Generated Model.Ident Model.Combine
-  Proofs.IdentSpec Proofs.PathProofs Proofs.CombineProofs.
+  Proofs.IdentSpec Proofs.PathProofs Proofs.CombineProofs Proofs.GenTieCombine.
 Import ListNotations.
 Local Open Scope N_scope.
 
@@ -153,3 +153,21 @@ Example C18_foreign_link_nonvacuous :
   replaceable (cond_out_dir ex_root) (abs_out ex_root ex_c None) [97] (Link [PAR; PAR; PAR; PAR; [111; 108; 100]; [118; 49]]) = false /\
   run_combine ex_fs (cond_out_dir ex_root) (abs_out ex_root ex_c None) ex_deps (Some ex_foreign) = Ran (ConflictAt [97]) ex_foreign.
 Proof. split; vm_compute; reflexivity. Qed.
+
+(* Tie to the source, re-checked on every run: the loop of the model takes, for each dependency, the
+   decision TRANSLATED from CombineOutputs.start_execution in the working tree (0 continue, 1 unlink
+   and link, 2 CombineOutputFileConflict, 3 link) and acts on it -- dropping the test for Conductor's
+   own links (D28) or going back to `exists()` before `is_symlink()` (D27) breaks this equality *)
+Theorem C18_loop_takes_the_sources_decision : forall f co out dep_id dep_dir rest d ex,
+  (lookup (iname dep_id) d = None -> ex = false) -> (lookup (iname dep_id) d = Some Other -> ex = true) ->
+  combine_loop f co out ((dep_id, dep_dir) :: rest) d =
+  match gen_combine_decision (fs_is_dir f dep_dir) (fs_nonempty f dep_dir)
+          (match lookup (iname dep_id) d with Some (Link _) => true | _ => false end)
+          (match lookup (iname dep_id) d with Some (Link t) => is_conductor_link co out (iname dep_id) t | _ => false end) ex with
+  | 0 => combine_loop f co out rest d
+  | 1 => combine_loop f co out rest (add (iname dep_id) (Link (relpath out dep_dir)) (remove (iname dep_id) d))
+  | 2 => (ConflictAt (iname dep_id), d)
+  | _ => combine_loop f co out rest (add (iname dep_id) (Link (relpath out dep_dir)) d)
+  end.
+Proof. intros f co out dep_id dep_dir rest d ex Hn Ho. rewrite loop_by_decision, (combine_decision_tie f co out dep_id dep_dir d ex Hn Ho). reflexivity. Qed.
+Print Assumptions C18_loop_takes_the_sources_decision.
